@@ -54,6 +54,15 @@ func runC14(c *core.Ctx) {
 		c14Absorb(c, rng, dir, i)
 		done()
 	}
+	for i := 0; i < m; i++ {
+		rng, ok := c.CaseRng(3000+i, "absorb identical events")
+		if !ok {
+			continue
+		}
+		dir, done := caseDir(c, 3000+i)
+		c14AbsorbIdentical(c, rng, dir, i)
+		done()
+	}
 }
 
 func c14Caps(c *core.Ctx) {
@@ -320,4 +329,72 @@ func c14Absorb(c *core.Ctx, rng *rand.Rand, dir string, idx int) {
 	c.Count("events_received", int64(n))
 	c.Distinct("absorb", sz, n)
 	_ = strings.Join
+}
+
+// c14AbsorbIdentical: cap+1 IDENTICAL events (writes to one file), each generated only after the
+// library has read the previous one out of the kernel queue (FIONREAD on its inotify descriptor
+// is 0), so the kernel cannot have merged them: all cap+1 must be delivered, whatever the buffer.
+func c14AbsorbIdentical(c *core.Ctx, rng *rand.Rand, dir string, idx int) {
+	sizes := []int{0, 1, 2, 3, 8, 64, 256}
+	sz := sizes[(idx+c.Batch)%len(sizes)]
+	w, err := fsnotify.NewBufferedWatcher(uint(sz))
+	if err != nil {
+		c.Broken(err.Error())
+		return
+	}
+	defer w.Close()
+	d := filepath.Join(dir, "d")
+	os.MkdirAll(d, 0o755)
+	f := filepath.Join(d, "same")
+	os.WriteFile(f, nil, 0o644)
+	if err := w.Add(d); err != nil {
+		c.Broken(err.Error())
+		return
+	}
+	fd := fsnotify.VerifInotifyFd(w)
+	fh, err := os.OpenFile(f, os.O_WRONLY|os.O_APPEND, 0)
+	if err != nil {
+		c.Broken(err.Error())
+		return
+	}
+	defer fh.Close()
+	n := sz + 1
+	for i := 0; i < n; i++ {
+		fh.Write([]byte("x"))
+		// wait until the library has taken it out of the kernel queue (bounded; logical condition)
+		emptied := false
+		for p := 0; p < 200000; p++ {
+			if q, err := unix.IoctlGetInt(fd, unix.TIOCINQ); err == nil && q == 0 {
+				emptied = true
+				break
+			}
+			time.Sleep(50 * time.Microsecond)
+		}
+		if !emptied {
+			c.Inconclusive(fmt.Sprintf("identical-absorb: kernel queue not drained by the reader after write %d of %d (buffer %d)", i+1, n, sz))
+			return
+		}
+	}
+	c.Count("absorb_identical_cases", 1)
+	c.Eval(1)
+	got := 0
+	idle := 0
+	for idle < 3 {
+		select {
+		case e := <-w.Events:
+			if e.Name == f && e.Op&fsnotify.Write != 0 {
+				got++
+			}
+			idle = 0
+		case <-time.After(30 * time.Millisecond):
+			if q, _ := unix.IoctlGetInt(fd, unix.TIOCINQ); q == 0 {
+				idle++
+			}
+		}
+	}
+	c.Count("events_received", int64(got))
+	c.Distinct("absorb-identical", sz)
+	if got != n {
+		c.Violate("identical-events-dropped", fmt.Sprintf("NewBufferedWatcher(%d): %d writes to one file, each made only after the previous notification had been read out of the kernel queue (so none could be merged there); %d Write events delivered", sz, n, got), nil)
+	}
 }
